@@ -59,6 +59,25 @@ class _ScaledTime(object):
         return getattr(time, name)
 
 
+class _CountingLock(object):
+    '''proxy around a lock which one thread takes once per cycle of its loop:
+    counts that thread's cycles (its own progress, whatever the machine load)'''
+
+    def __init__(self, lock, fname):
+        self._lock, self._fname, self.cycles = lock, fname, 0
+
+    def __enter__(self):
+        if sys._getframe(1).f_code.co_name == self._fname:
+            self.cycles += 1
+        return self._lock.__enter__()
+
+    def __exit__(self, *a):
+        return self._lock.__exit__(*a)
+
+    def acquire(self, *a, **k): return self._lock.acquire(*a, **k)
+    def release(self):          return self._lock.release()
+
+
 class _SpProxy(object):
     '''`sp` shim for popen.py: hooks around the real subprocess.Popen'''
 
@@ -82,6 +101,7 @@ class _SpProxy(object):
             sim.hits.add('cancel:in_spawn_before')
         proc = _real_sp.Popen(*args, **kwargs)
         sim.pids[uid] = proc.pid
+        sim.spawned_at[uid] = time.time()
         if spec.get('cancel') == 'in_spawn_after':
             sim.cancel([uid], wait=True)
             sim.hits.add('cancel:in_spawn_after')
@@ -293,8 +313,15 @@ def gen_case(rng, spawner='POPEN'):
         for t in cands[:3]:
             t.update({'startup': 'reported', 'bulk': b,
                       'dur': max(t['dur'], 0.2)})
+        if rng.random() < 0.5:
+            # a start-up limit AND a (generous) run-time limit: the process
+            # outlives the start-up limit, which ended when it reported
+            t = cands[0]
+            t.update({'ending': 'ok', 'code': 0, 'dur': 2.0,
+                      'startup_limit': 1.5, 'timeout': 9.0,
+                      'timeout_generous': True})
         # a later task with a run-time limit which does not end on its own
-        tasks.append({'uid': 't.%d' % len(tasks), 'ending': 'long', 'dur': 0,
+        tasks.append({'uid': 't.%d' % len(tasks), 'ending': 'hang', 'dur': 0,
                       'code': 0, 'sig': 'TERM', 'cancel': None,
                       'cancel_at': None, 'timeout': 0.25, 'poison': None,
                       'bulk': b + 2})
@@ -322,6 +349,7 @@ class ExecSim(object):
         self.case  = case
         self.specs = {t['uid']: t for t in case['tasks']}
         self.pids  = dict()
+        self.spawned_at = dict()
         self.hits  = set()
         self.cancel_requested = dict()     # uid -> seq of the request
         self.cancel_faults    = set()      # uids whose late-cancel kill raised
@@ -364,6 +392,8 @@ class ExecSim(object):
         comp      = self.ex.comp
         self.comp = comp
         comp.rp_ctrl = '/bin/true'     # the harness reports task start-up
+        if hasattr(comp, '_to_lock'):
+            comp._to_lock = _CountingLock(comp._to_lock, '_to_watcher')
         if case['spawner'] == 'NOOP':
             comp._delay = 0.02
         self._install_poison(comp)
@@ -486,6 +516,9 @@ class ExecSim(object):
                 # is killed by a signal RP did not send
                 args = ['-c', 'sleep %s; kill -%s 0; sleep 5; exit 0'
                               % (t['dur'], t.get('sig', 'TERM'))]
+            elif t['ending'] == 'hang':
+                # does not end on its own: only its run-time limit ends it
+                args = ['-c', 'sleep 600; exit 0']
             else:
                 args = ['-c', 'sleep 6; exit 0']
             exe = '/bin/sh'
@@ -493,7 +526,7 @@ class ExecSim(object):
                 exe, args = '/bin/sleep', [str(min(t['dur'], 0.3))]
             kw = dict()
             if t.get('startup'):
-                kw['startup_timeout'] = 3.0
+                kw['startup_timeout'] = t.get('startup_limit', 3.0)
             tds[t['uid']] = exec_task(t['uid'], sbox, executable=exe,
                                       arguments=args, timeout=t['timeout'],
                                       **kw)
@@ -526,12 +559,20 @@ class ExecSim(object):
                 self.env.put(rpc.AGENT_EXECUTING_QUEUE, [tds[u] for u in uids])
             elif what == 'startup':
                 # what `$RP_CTRL <sid> task_startup_done uid=<uid>` of the
-                # tasks' scripts sends
-                for u in uids:
-                    self.env.publish(rpc.CONTROL_PUBSUB,
-                                     {'cmd': 'task_startup_done',
-                                      'arg': {'uid': u}})
-                self.hits.add('startup_reported')
+                # tasks' scripts sends - i.e. not before their processes exist
+                def report(uids=uids):
+                    end = time.time() + 10
+                    while time.time() < end and \
+                            not all(u in self.pids for u in uids):
+                        _real_sleep(0.002)
+                    _real_sleep(0.03)     # the script reaches its report line
+                    for u in uids:
+                        self.env.publish(rpc.CONTROL_PUBSUB,
+                                         {'cmd': 'task_startup_done',
+                                          'arg': {'uid': u}})
+                    self.hits.add('startup_reported')
+                mt.Thread(target=report, daemon=True,
+                          name='startup-report').start()
             else:
                 self.cancel(uids)
                 for u in uids:
@@ -542,8 +583,28 @@ class ExecSim(object):
         stable   = 0
         idle     = 0
         last_seq = -1
+        marks = dict()      # uid -> watcher cycles when its limit had passed
         while time.time() < deadline:
             rec = self.records()
+            # a process which does not end on its own is ended by its run-time
+            # limit: decided in cycles of the timeout watcher, not in seconds
+            tol = getattr(self.comp, '_to_lock', None)
+            for t in case['tasks']:
+                u = t['uid']
+                if t['ending'] != 'hang' or not t['timeout'] or \
+                        u not in self.spawned_at or rec[u]['handovers'] or \
+                        not isinstance(tol, _CountingLock) or \
+                        'limit-not-enforced:%s' % u in self.notes:
+                    continue
+                if time.time() > self.spawned_at[u] + t['timeout'] + 0.3:
+                    if u not in marks:
+                        marks[u] = tol.cycles
+                    elif tol.cycles > marks[u] + 500:
+                        self.notes.append('limit-not-enforced:%s' % u)
+                        try:
+                            os.killpg(self.pids[u], signal.SIGKILL)
+                        except OSError:
+                            pass
             if all(r['handovers'] or r['dropped'] for r in rec.values()):
                 stable += 1
                 if stable >= 8:          # let stragglers (double hand-overs) show
@@ -639,7 +700,8 @@ class ExecSim(object):
                 r['dropped'] = True
             r['pid']       = self.pids.get(u)
             r['cancel_req'] = u in self.cancel_requested or \
-                              bool(self.specs[u]['timeout'])
+                              (bool(self.specs[u]['timeout']) and
+                               not self.specs[u].get('timeout_generous'))
         return rec
 
     def alive(self, pid, grace=0.0):
